@@ -103,8 +103,18 @@ def dec_pt(v, g):
     return (v[0], v[1]) if g == 1 else ((v[0], v[1]), (v[2], v[3]))
 
 
+SMALL_X_SCALAR = 70368756576603      # [k]G1 has an x coordinate of only 352 bits (found by an offline search over ~10^8 points; re-checked below)
+
+
 def points(g, seed, tier):
-    return [P for _, P in alpha.subgroup_points(g, seed, tier)]
+    pts = [P for _, P in alpha.subgroup_points(g, seed, tier)]
+    if g == 1:
+        # a coordinate with many leading zero bits: x + q then has the same leading word as q itself, the one place where a
+        # "compare the leading words first" shortcut of the canonical-form check can go wrong (about 2^-29 of all points)
+        S = ref.pt_mul(ref.G1_GEN, SMALL_X_SCALAR, 1)
+        assert S[0].bit_length() <= 352 and (S[0] + ref.q) >> 352 == ref.q >> 352
+        pts = pts[:2] + [S, ref.pt_neg(S, 1)] + pts[2:]
+    return pts
 
 
 def mutations(g, comp, seed, tier):
